@@ -236,6 +236,7 @@ func (in *instance) reset() {
 		return true
 	})
 	in.core.mu.Lock()
+	in.core.outs = map[string]outcome{}
 	in.sessBase = len(in.core.sessions)
 	for p, r := range in.core.conns {
 		if r.closed {
@@ -645,6 +646,7 @@ type ReqResult struct {
 	CSeq     string
 	SessHdr  string // index of the session named by the Session header, "-" or "?"
 	Chan     string
+	Public   string
 	Closed   bool
 	ProbeErr string
 }
@@ -662,9 +664,7 @@ func (in *instance) doReq(r Req) (ReqResult, error) {
 	if err != nil {
 		return out, err
 	}
-	in.core.mu.Lock()
-	in.core.out = outcome{status: r.HStatus, err: r.HErr}
-	in.core.mu.Unlock()
+	in.core.setOutcome(r.CSeq, outcome{status: r.HStatus, err: r.HErr})
 
 	cl.nc.SetWriteDeadline(time.Now().Add(watchdog))
 	if err = cl.c.WriteRequest(req); err != nil {
@@ -681,7 +681,10 @@ func (in *instance) doReq(r Req) (ReqResult, error) {
 		return out, nil
 	}
 	out.Status = int(res.StatusCode)
-	out.CSeq, out.SessHdr, out.Chan = "-", "-", "-"
+	out.CSeq, out.SessHdr, out.Chan, out.Public = "-", "-", "-", "-"
+	if v, ok := res.Header["Public"]; ok && len(v) == 1 {
+		out.Public = strings.ReplaceAll(v[0], ", ", ",")
+	}
 	if v, ok := res.Header["CSeq"]; ok && len(v) == 1 {
 		out.CSeq = v[0]
 	}
@@ -710,9 +713,15 @@ func (in *instance) doReq(r Req) (ReqResult, error) {
 		}
 	}
 
-	// probe: a session-less OPTIONS is answered by the connection itself and changes nothing; it
-	// tells whether the server kept the connection open after the response, and that no second
-	// response to the request is in the pipe.
+	out.Closed, out.ProbeErr = in.probe(cl, r.Method+" (CSeq "+r.CSeq+")")
+	in.settle()
+	return out, nil
+}
+
+// probe: a session-less OPTIONS is answered by the connection itself and changes nothing; it tells
+// whether the server kept the connection open after the last response, and that no second response
+// to the previous request is in the pipe.
+func (in *instance) probe(cl *client, after string) (closed bool, probeErr string) {
 	probe := &base.Request{Method: base.Options, Header: base.Header{"CSeq": base.HeaderValue{probeCSeq}}}
 	cl.nc.SetWriteDeadline(time.Now().Add(watchdog))
 	werr := cl.c.WriteRequest(probe)
@@ -725,20 +734,88 @@ func (in *instance) doReq(r Req) (ReqResult, error) {
 	case werr != nil || perr != nil:
 		if ne, ok := perr.(net.Error); ok && ne.Timeout() {
 			in.hang = "probe OPTIONS was not answered and the connection was not closed"
-			out.ProbeErr = "timeout"
+			probeErr = "timeout"
 		}
-		out.Closed = true
+		closed = true
 		cl.dead = true
 		cl.nc.Close()
 		in.waitConnClosed(cl)
 	default:
 		if v := pres.Header["CSeq"]; len(v) != 1 || v[0] != probeCSeq || pres.StatusCode != base.StatusOK {
-			in.extraResp = fmt.Sprintf("after the response to %s (CSeq %s) the connection delivered status %d CSeq %v instead of the probe's answer",
-				r.Method, r.CSeq, pres.StatusCode, pres.Header["CSeq"])
+			in.extraResp = fmt.Sprintf("after the response to %s the connection delivered status %d CSeq %v instead of the probe's answer",
+				after, pres.StatusCode, pres.Header["CSeq"])
 		}
 	}
+	return closed, probeErr
+}
+
+// BatchResult is what the client saw for a pipelined batch.
+type BatchResult struct {
+	Lines    []string // per request: "st <status> cs <cseq>" or "noconn"
+	Sent     []Req
+	Answered int
+	Closed   bool
+	Detail   string // non-empty: something is wrong with the answers
+}
+
+// doBatch writes the requests back to back in one segment (pipelining) and then reads the responses.
+func (in *instance) doBatch(reqs []Req) (BatchResult, error) {
+	res := BatchResult{Sent: reqs}
+	cl, ok := in.clients[reqs[0].Conn]
+	if !ok || cl.dead || !in.serverOpen(reqs[0].Conn) {
+		for range reqs {
+			res.Lines = append(res.Lines, "noconn")
+		}
+		return res, nil
+	}
+	var wire []byte
+	for _, r := range reqs {
+		req, err := in.buildRequest(r)
+		if err != nil {
+			return res, err
+		}
+		in.core.setOutcome(r.CSeq, outcome{status: r.HStatus, err: r.HErr})
+		b, err := req.Marshal()
+		if err != nil {
+			return res, err
+		}
+		wire = append(wire, b...)
+	}
+	cl.nc.SetWriteDeadline(time.Now().Add(watchdog))
+	if _, err := cl.nc.Write(wire); err != nil {
+		res.Detail = "write: " + err.Error()
+	}
+	for i, r := range reqs {
+		resp, err := cl.readResponse()
+		if err != nil {
+			if ne, ok := err.(net.Error); ok && ne.Timeout() {
+				in.hang = fmt.Sprintf("pipelined request %d (%s) got no response and the connection stayed open", i, r.Method)
+			}
+			res.Closed = true
+			break
+		}
+		cs := "-"
+		if v, ok := resp.Header["CSeq"]; ok && len(v) == 1 {
+			cs = v[0]
+		}
+		if r.CSeq != "-" && cs != r.CSeq {
+			res.Detail = fmt.Sprintf("response %d of the batch carries CSeq %s, request %d was sent with CSeq %s", i, cs, i, r.CSeq)
+		}
+		res.Lines = append(res.Lines, fmt.Sprintf("st %d cs %s", resp.StatusCode, cs))
+		res.Answered++
+	}
+	for len(res.Lines) < len(reqs) {
+		res.Lines = append(res.Lines, "noconn")
+	}
+	if res.Closed {
+		cl.dead = true
+		cl.nc.Close()
+		in.waitConnClosed(cl)
+	} else {
+		res.Closed, _ = in.probe(cl, "the pipelined batch")
+	}
 	in.settle()
-	return out, nil
+	return res, nil
 }
 
 // freshProbe: a new connection gets an answer to OPTIONS (the server survived the case).
@@ -770,5 +847,5 @@ func (o ReqResult) line(sn snapshot) string {
 	if o.NoResp != "" {
 		return "noresp " + sn.String()
 	}
-	return fmt.Sprintf("st %d cs %s sh %s ch %s cl %s %s", o.Status, o.CSeq, o.SessHdr, o.Chan, b01(o.Closed), sn.String())
+	return fmt.Sprintf("st %d cs %s sh %s ch %s pb %s cl %s %s", o.Status, o.CSeq, o.SessHdr, o.Chan, o.Public, b01(o.Closed), sn.String())
 }
